@@ -64,7 +64,7 @@ def build_server():
     if os.path.abspath(vlib.REPO) == "/repo":
         tdir = os.path.join(vlib.HARNESS, "target", "server")
     else:
-        tdir = os.path.join(vlib.WORK, "target-alt-server")
+        tdir = os.path.join(vlib.WORK, "target-alt-server-" + vlib.alt_tag(vlib.REPO))
     os.makedirs(vlib.WORK, exist_ok=True)
     lockf = open(os.path.join(vlib.WORK, "build-server.lock"), "w")
     fcntl.flock(lockf, fcntl.LOCK_EX)
